@@ -426,3 +426,50 @@ def run(ck):
     ck.ob("C11-R8", "InternalRethrow/no-base-class", not bases_, "%s:%s" % (ir.get("file"), ir.get("line")), "",
           "no base class" if not bases_ else "InternalRethrow derives from %s: a handler for that base placed round a continuation swallows the forwarded rejection" % bases_)
 
+    # ---------------- R9: a promise is marked settled when its outcome is in place ----------------
+    ck.rule("C11-R9", "C ordering (value before state)",
+            "in Resolver / Rejection (and every other function of async.h that settles a core directly) the outcome is stored first -- "
+            "Core::construct for a value, Core::exc for an exception -- and the state is changed to Fulfilled / Rejected after it: "
+            "construct can throw (BadType, a throwing copy), and a state that was already claimed then says 'fulfilled' for a core "
+            "without a value -- later valid attempts are refused and continuations run on nothing", 4)
+
+    def state_store(e):
+        if e["k"] != "call":
+            return None
+        rv = e.get("recv") or {}
+        if not _field(rv, "Core::state"):
+            return None
+        nm = (e.get("callee") or "").rsplit("::", 1)[-1]
+        if e.get("op") == "=" or nm in ("store", "exchange", "compare_exchange_strong", "compare_exchange_weak"):
+            for a_ in e.get("args", []):
+                c_ = a_.get("const") or ""
+                if isinstance(c_, str) and c_.startswith("e:Pistache::Async::State::") and not c_.endswith("Pending"):
+                    return c_.rsplit("::", 1)[-1]
+                for r_ in (a_.get("refs") or []):
+                    if r_.startswith("e:Pistache::Async::State::") and not r_.endswith("Pending"):
+                        return r_.rsplit("::", 1)[-1]
+            # `claim(settled)`: the settled state arrives through a parameter of an expanded helper
+            if nm.startswith("compare_exchange") or nm in ("store", "exchange"):
+                return "?"
+        return None
+    n9 = 0
+    for f in prog.flat_library_funcs():
+        if not f.file.endswith("/pistache/async.h") or not f.blocks:
+            continue
+        stores = [(e, state_store(e)) for e in f.events("call") if state_store(e)]
+        if not stores:
+            continue
+        outcome = [e for e in f.events("call") if (strip_tmpl(e.get("callee") or "").endswith("Core::construct") or strip_tmpl(e.get("callee") or "").endswith("CoreT::construct"))]
+        outcome += [e for e in f.events(("call", "assign")) if (e.get("op") == "=" and _field(e.get("recv"), "Core::exc")) or (e["k"] == "assign" and ((e.get("lhs") or {}).get("f") or "").endswith("Core::exc"))]
+        if not outcome:
+            continue
+        d9 = cfg.dominators(f)
+        for e, which in stores:
+            n9 += 1
+            ok9 = any(cfg.ev_dominates(d9, o_, e) for o_ in outcome)
+            ck.ob("C11-R9", "%s/outcome-before-state" % prog.owner(f).base.replace("Pistache::Async::", ""), ok9, e.loc, f,
+                  "the value / exception is stored before the state is set" if ok9 else
+                  "the state is set to %s at line %s before the value / exception is stored: if storing it throws, the core stays marked settled "
+                  "with nothing in it" % (which, e.get("l")))
+    ck.require(n9 >= 4, "direct settlements (state stores next to an outcome store) found in async.h: %d" % n9)
+
